@@ -42,6 +42,10 @@ def cases(tier, seed):
                     if kn == 1 and red != "mean":
                         continue
                     yield dict(kind="knn", sub=list(sub), k=kn, red=red)
+                    if red == "mean" and kn <= 2:
+                        # the same geometry scaled by powers of two (coordinates of 1e-9 and 1e6) and moved to 2^23 (exact)
+                        for tr in ([2.0 ** -30, 0.0], [2.0 ** 20, 0.0], [1.0, 2.0 ** 23]):
+                            yield dict(kind="knn", sub=list(sub), k=kn, red=red, tr=tr)
                     if red == "mean":
                         for rep in ("int_e", "int_n", "int"):
                             yield dict(kind="knn", sub=list(sub), k=kn, red=red, rep=rep)
@@ -165,7 +169,8 @@ def run(case, rec):
                 est.set_params(k=k, reduction=getattr(np, red))
             else:
                 est.k, est.reduction = k, getattr(np, red)
-        e_fit, n_fit, d_fit = e.copy(), n.copy(), data.copy()
+        tsc, toff = case.get("tr", (1.0, 0.0))
+        e_fit, n_fit, d_fit = e * tsc + toff, n * tsc - toff, data.copy()
         if raised(call(rec, est.fit, (e_fit, n_fit), d_fit)):
             return rec.check(False, "KNeighbors.fit raised")
         # the caller reuses its buffers after the fit: the fitted estimator must not depend on them any more (seed C15-8)
@@ -173,7 +178,7 @@ def run(case, rec):
         n_fit[...] = 0
         d_fit[...] = -7.0
         qe, qn = np.meshgrid(np.array(QE), np.array(QN))
-        got = call(rec, est.predict, (qe, qn))
+        got = call(rec, est.predict, (qe * tsc + toff, qn * tsc - toff))
         if raised(got):
             return rec.check(False, "KNeighbors.predict raised %r" % (got,))
         got = np.asarray(got)
@@ -200,10 +205,10 @@ def run(case, rec):
         rec.count("queries", int(qe.size))
         rec.count("queries_with_tie_at_kth", nties)
         # 1-d and 0-d forms agree with the 2-d form
-        g1 = call(rec, est.predict, (qe.ravel(), qn.ravel()))
+        g1 = call(rec, est.predict, ((qe * tsc + toff).ravel(), (qn * tsc - toff).ravel()))
         rec.check(not raised(g1) and np.asarray(g1).shape == (qe.size,) and np.array_equal(np.asarray(g1), got.ravel()), "1-D query differs from the 2-D query")
         for idx in ((0, 0), (7, 3), (18, 10)):
-            g0 = call(rec, est.predict, (np.array(qe[idx]), np.array(qn[idx])))
+            g0 = call(rec, est.predict, (np.array(qe[idx] * tsc + toff), np.array(qn[idx] * tsc - toff)))
             rec.check(not raised(g0) and np.asarray(g0).shape == () and float(g0) == float(got[idx]), "0-d query %s: %r vs %r" % (idx, g0, got[idx]))
         rec.cls("knn/k=%d/%s" % (k, red))
         return
